@@ -305,9 +305,9 @@ def run(pid=None):
     done, errors = [], []
     os.makedirs(GEN, exist_ok=True)
     for g, ks in sorted(groups.items()):
-        # the shared group "numeric" is imported by every generated file: always (re)generate it
-        if pid is not None and g != "numeric" and not any(pid in k["props"] for k in ks):
-            continue
+        # every group is regenerated on every run (cheap; a model may import another property's kernels);
+        # only failures of kernels that serve `pid` are errors of this run
+        mine = pid is None or any(pid in k["props"] for k in ks)
         parts = ["(* GENERATED by tools/translate.py from /repo's working tree -- do not edit *)\n"
                  "From Coq Require Import ZArith Bool.\n"]
         if g != "numeric":
@@ -320,7 +320,8 @@ def run(pid=None):
                 if pid is None or pid in k["props"]:
                     done.append(k["name"])
             except TranslateError as ex:
-                errors.append(str(ex))
+                if mine:
+                    errors.append(str(ex))
                 failed = True
         if failed:
             continue  # keep the last good file so the remaining development still builds
